@@ -10,27 +10,42 @@
 #define ELEM 24
 #endif
 static parsec_arena_t AR;
-static parsec_data_t D[3];
-static parsec_data_copy_t CP[3];
+static parsec_data_t D0, D1, D2;
+static parsec_data_copy_t CP0, CP1, CP2;
+#define CPof(i) ((i) == 0 ? &CP0 : (i) == 1 ? &CP1 : &CP2)
+#define Dof(i) ((i) == 0 ? &D0 : (i) == 1 ? &D1 : &D2)
 static int live[3], cnt[3];            /* slot holds a live allocation of cnt elements */
 static parsec_arena_chunk_t *cache[4]; static int ncache;     /* model of the free list (LIFO) */
 static int m_used;                     /* model of arena.used: elements obtained from the system and not given back */
 
-int main(void)
-{
-    int ash = IN_RANGE(1, 6); size_t alignment = (size_t)1 << ash;           /* 2..64 */
+static size_t alignment; static int refused, reused, freed_by_limit;
+#if defined(VP_SEQIR) || defined(VP_DIRECT)
+#define VP_SPLIT 1
+#endif
+#ifdef VP_SPLIT
+#define HIST_BEGIN void thread0(void) { int rc;
+#define SETUP_BEGIN void setup(void) { int rc;
+#else
+#define SETUP_BEGIN int main(void) { int rc;
+#define HIST_BEGIN
+#endif
+SETUP_BEGIN
+    int ash = IN_RANGE(1, 6); alignment = (size_t)1 << ash;           /* 2..64 */
     int mu = IN_RANGE(0, 4), mr = IN_RANGE(0, 3);                            /* 4 / 3 = unlimited */
     size_t max_alloc = (mu == 4) ? SIZE_MAX : (size_t)mu * ELEM + (IN_BOOL() ? ELEM - 1 : 0);
     size_t max_cache = (mr == 3) ? SIZE_MAX : (size_t)mr * ELEM;
-    int rc = parsec_arena_construct_ex(&AR, ELEM, alignment, max_alloc, max_cache);
+    rc = parsec_arena_construct_ex(&AR, ELEM, alignment, max_alloc, max_cache);
     VASSERTM(rc == PARSEC_SUCCESS, "valid parameters accepted");
     VASSERTM(AR.max_used == ((mu == 4) ? INT32_MAX : mu) && AR.max_released == ((mr == 3) ? INT32_MAX : mr), "limits in elements");
     AR.data_malloc = vp_data_allocate; AR.data_free = vp_data_free;
-    for(int i = 0; i < 3; i++) { CP[i].original = &D[i]; CP[i].device_index = 0; }
-    int refused = 0, reused = 0, freed_by_limit = 0;
+    CP0.original = &D0; CP1.original = &D1; CP2.original = &D2;
+#ifdef VP_SPLIT
+}
+#endif
+HIST_BEGIN
     for(int s = 0; s < K; s++) {
         int slot = IN_RANGE(0, 2), op = IN_RANGE(0, 2);
-        parsec_data_copy_t *cp = (slot == 0) ? &CP[0] : (slot == 1) ? &CP[1] : &CP[2];
+        parsec_data_copy_t *cp = CPof(slot);
         if(op < 2) {                    /* allocate 1 (op 0) or 2 (op 1) elements */
             size_t count = op + 1;
             VASSUME(!live[slot]);
@@ -42,12 +57,12 @@ int main(void)
             if(rc == PARSEC_SUCCESS) {
                 parsec_arena_chunk_t *ch = cp->arena_chunk;
                 int bi = blk_index(ch);
-                VASSERTM(bi >= 0 && blk_state[bi] == 1, "chunk is a block obtained from the system allocator and not given back");
+                VASSERTM(bi >= 0 && blk_state_of(bi) == 1, "chunk is a block obtained from the system allocator and not given back");
                 VASSERTM(((uintptr_t)cp->device_private % alignment) == 0, "payload aligned as requested");
                 VASSERTM((unsigned char*)cp->device_private >= (unsigned char*)ch + sizeof(parsec_arena_chunk_t), "payload after the chunk header");
-                VASSERTM((unsigned char*)cp->device_private + count * ELEM <= (unsigned char*)ch + blk_req[bi], "payload of count elements fits in the block");
-                VASSERTM(ch->origin == &AR && ch->count == count && D[slot].span == count * ELEM, "chunk bookkeeping");
-                for(int o = 0; o < 3; o++) if(o != slot && live[o]) VASSERTM(CP[o].arena_chunk != ch, "block not handed to a second owner");
+                VASSERTM((unsigned char*)cp->device_private + count * ELEM <= (unsigned char*)ch + blk_req_of(bi), "payload of count elements fits in the block");
+                VASSERTM(ch->origin == &AR && ch->count == count && Dof(slot)->span == count * ELEM, "chunk bookkeeping");
+                for(int o = 0; o < 3; o++) if(o != slot && live[o]) VASSERTM(CPof(o)->arena_chunk != ch, "block not handed to a second owner");
                 if(expect_reuse) { VASSERTM(ch == cache[ncache - 1], "cached blocks are reused most-recent first"); ncache--; reused++; }
                 else if(AR.max_used != INT32_MAX) m_used += count;
                 live[slot] = 1; cnt[slot] = count;
@@ -60,7 +75,7 @@ int main(void)
             parsec_arena_release_chunk(&AR, ch);
             live[slot] = 0;
             if(expect_cache) { VASSERTM(n_sysfree == sysfree_before, "released block kept in the cache"); cache[ncache++] = ch; }
-            else { VASSERTM(n_sysfree == sysfree_before + 1 && blk_state[blk_index(ch)] == 2, "block beyond the cache limit returned to the system exactly once");
+            else { VASSERTM(n_sysfree == sysfree_before + 1 && blk_state_of(blk_index(ch)) == 2, "block beyond the cache limit returned to the system exactly once");
                    if(AR.max_used != 0 && AR.max_used != INT32_MAX) m_used -= cnt[slot];
                    if(cnt[slot] == 1) freed_by_limit++; }
         }
@@ -69,8 +84,19 @@ int main(void)
         VASSERTM(AR.max_used == INT32_MAX || AR.max_used == 0 || AR.used == m_used, "used counter = elements held from the system");
         VASSERTM(AR.max_used == INT32_MAX || AR.used <= AR.max_used, "never more than max_used elements");
     }
-    if(refused && reused) VWITNESS("a refusal and a cache reuse in one history");
+#ifdef VP_SPLIT
+}
+void check(void) {
+#endif
     if(freed_by_limit) VWITNESS("cache limit forced a real free");
-    if(reused >= 1 && AR.max_used == INT32_MAX) VWITNESS("unlimited arena reuse");
+    if(refused) VWITNESS("an allocation was refused");
+#if K >= 3
+    if(reused) VWITNESS("a cached block was reused");
+#endif
+#if K >= 4
+    if(refused && reused) VWITNESS("a refusal and a cache reuse in one history");
+#endif
+#ifndef VP_SPLIT
     return 0;
+#endif
 }
